@@ -46,6 +46,20 @@ func nopNameEnc(string, zapcore.PrimitiveArrayEncoder)                {}
 
 var hostileLayouts = []string{"2006 MST", "", "2006\"x\\", "15:04:05.000\t-07:00", "Jan _2 \n MST", "2006-01-02T15:04:05.999999999Z07:00:00", "plain text", "Monday, 02-Jan-06 15:04:05 MST \xff"}
 
+// streamingReflEnc is a custom ReflectedEncoder that has already written part
+// of its output when it discovers that a value cannot be encoded.
+type streamingReflEnc struct{ w io.Writer }
+
+func (e streamingReflEnc) Encode(v any) error {
+	b, err := json.Marshal(v)
+	if err != nil {
+		_, _ = e.w.Write([]byte(`{"partial":[1,2,`))
+		return err
+	}
+	_, err = e.w.Write(append(b, '\n'))
+	return err
+}
+
 type cfgOpts struct {
 	builtinOnly      bool // C02: only sub-encoders whose representation is documented (built-in, nil, no-op)
 	timeNeedsEncoder bool // D3: TimeKey != "" => EncodeTime != nil
@@ -97,8 +111,10 @@ func genCfgSpec(t *rapid.T, o cfgOpts) *cfgSpec {
 		"millis": zapcore.MillisDurationEncoder, "string": zapcore.StringDurationEncoder}[cs.durEnc]
 	cs.callerEnc = rapid.SampledFrom([]string{"nil", "nop", "full", "short", "short"}).Draw(t, "callerEnc")
 	cs.cfg.EncodeCaller = map[string]zapcore.CallerEncoder{"nil": nil, "nop": nopCallerEnc, "full": zapcore.FullCallerEncoder, "short": zapcore.ShortCallerEncoder}[cs.callerEnc]
-	cs.reflEnc = rapid.SampledFrom([]string{"default", "default", "default", "html", "nohtml"}).Draw(t, "reflectedEnc")
+	cs.reflEnc = rapid.SampledFrom([]string{"default", "default", "default", "html", "nohtml", "stream"}).Draw(t, "reflectedEnc")
 	switch cs.reflEnc {
+	case "stream":
+		cs.cfg.NewReflectedEncoder = func(w io.Writer) zapcore.ReflectedEncoder { return streamingReflEnc{w} }
 	case "html":
 		cs.cfg.NewReflectedEncoder = mkReflectedEncoder(true)
 	case "nohtml":
